@@ -31,6 +31,7 @@ type c03Step struct {
 	N      uint64     `json:"n"`
 	H      bool       `json:"h"`
 	On     bool       `json:"on"`
+	Ver    int        `json:"ver"`
 }
 
 type c03Scenario struct {
@@ -166,9 +167,9 @@ func TestVerifC03(t *testing.T) {
 				h.Hold(st.K, st.On)
 				emit(verifsupport.Ev{"ev": "Hold", "k": st.K, "on": st.On})
 			case "Release":
-				ok, err := h.Release(st.K, st.N)
+				ok, err := h.Release(st.K, st.N, st.Ver)
 				check(err)
-				emit(verifsupport.Ev{"ev": "Release", "k": st.K, "n": st.N, "released": ok})
+				emit(verifsupport.Ev{"ev": "Release", "k": st.K, "n": st.N, "ver": st.Ver, "released": ok})
 			default:
 				t.Fatalf("unknown step %q", st.Ev)
 			}
